@@ -719,9 +719,9 @@ def run(chk):
     env = Env(hy)
     try:
         table = names_sites.sites(vlib.REPO)
-    except vlib.ShapeChanged as e:
+    except Exception as e:   # a broken tie must not stop the oracle
         table = []
-        chk.notes.append("site table not available: %s" % e)
+        chk.notes.append("site table not available: %s: %s" % (type(e).__name__, e))
     chk.extra["sites"] = [{"site": s, "expr": repr(t), "where": w} for s, t, w in table]
     chk.extra["class_kwd_site_mangles"] = any(s == "S_match_class_kwd" and t[0] == "NMangle" for s, t, _ in table)
     if table and ok:
